@@ -238,3 +238,9 @@ func SortedKeys[M ~map[K]V, K cmp.Ordered, V any](m M) []K {
 	slices.Sort(keys)
 	return keys
 }
+
+// SendTo(ch)(v) is `ch <- v` with the element type taken from the channel only.
+func SendTo[T any](ch chan<- T) func(T) { return func(v T) { Send(ch, v) } }
+
+// SendNowTo(ch)(v) is the send of a select case chosen by Select.
+func SendNowTo[T any](ch chan<- T) func(T) { return func(v T) { SendNow(ch, v) } }
